@@ -358,6 +358,12 @@ def run(ctx):
             C19_drop.check(ctx, tier)
         except (Inconclusive, Unmodelled) as e:
             ctx.inconclusive.append('C19 drop slice: %s: %s' % (type(e).__name__, str(e)[:300]))
+        # engine M: job metadata of serialized factory messages
+        import C19_jobmeta
+        try:
+            C19_jobmeta.check(ctx, tier)
+        except (Inconclusive, Unmodelled) as e:
+            ctx.inconclusive.append('C19 job metadata slice: %s: %s' % (type(e).__name__, str(e)[:300]))
         # engine M: the decoder / encoder generated by #[derive(RactorClusterMessage)] for a probe enum with every variant shape
         import C19_derive
         try:
@@ -412,6 +418,13 @@ def replay_file(path):
         r = C19_drop_replay.replay(rp['decoder'], rp.get('runtime'))
         print(r['detail'])
         return 1 if r['replayed'] else 0
+    if rp.get('which') == 'jobmeta':
+        import C19_jobmeta_replay
+        bad, _n = C19_jobmeta_replay.battery()
+        if rp.get('meta') is not None:
+            bad += C19_jobmeta_replay.evaluate(rp['meta'])[0]
+        print('native job metadata decoding:', bad)
+        return 1 if bad else 0
     if rp.get('which') == 'reader_actor':
         import C19_stream_replay
         r = C19_stream_replay.replay_reader()
